@@ -34,6 +34,10 @@ class Flow(Exception):
     pass
 
 
+class Raised(Exception):
+    """a callee raised on every path: the calling statement does not complete"""
+
+
 class Frame:
     def __init__(self, fi: FunctionInfo, env: Dict[str, Val], depth: int, parent_env=None):
         self.fi = fi
@@ -266,7 +270,9 @@ class Interp:
             if isinstance(fnode, ast.Lambda):
                 ret = self.eval(fnode.body, env)
             else:
-                self.exec_block(fnode.body, env)
+                done = self.exec_block(fnode.body, env)
+                if done is None and not fr.returns and self.frames[:-1]:
+                    raise Raised(fi.qualname)
                 ret = self._join_returns(fr)
         finally:
             self.frames.pop()
@@ -355,6 +361,13 @@ class Interp:
         return env
 
     def exec_stmt(self, st, env: dict) -> Optional[dict]:
+        try:
+            return self._exec_stmt(st, env)
+        except Raised:
+            self.event("raise", st, propagated=True)
+            return None
+
+    def _exec_stmt(self, st, env: dict) -> Optional[dict]:
         fr = self.frames[-1]
         rc = env.get("$reach")
         self.cur_reach = rc.e if isinstance(rc, Sc) else sym.TRUE
@@ -1065,6 +1078,8 @@ class Interp:
                 out.append(("new",))
             elif isinstance(v, StrV):
                 out.append(("str", v.s))
+            elif isinstance(v, Sc) and v.e is None:
+                out.append(("new",))
             elif isinstance(v, Sc):
                 e = v.e
                 if e[0] == "num" and float(e[1]).is_integer():
@@ -1389,6 +1404,11 @@ class Interp:
             return self.global_value(self.p.canonical(f"{base.name}.{attr}"), node)
         if isinstance(base, FuncV) and base.kind == "prim":
             return self.global_value(f"{base.target}.{attr}", node)
+        if isinstance(base, ObjV) and base.tag == "super":
+            m = base.attrs["cls"].lookup_super(attr, self.p)
+            if m is not None:
+                return FuncV("repo", m.qualname, bound_self=base.attrs["self"])
+            return FuncV("prim", "builtins.object." + attr)
         if isinstance(base, ObjV):
             if attr in base.attrs:
                 return base.attrs[attr]
